@@ -2,7 +2,7 @@ SPECIFICATION SimSpec
 CONSTANTS
   NRoots = 3
   NLeaves = 2
-  Box = 64
+  Box = 128
   Dims = 2
   MaxTime = 12
   Depth = 30
